@@ -334,6 +334,36 @@ pub fn run<W: Write>(opts: &Opts, out: &mut W) {
             c.webp(&format!("{name}-x{k}"), "splice", &Sparse::from_bytes(&v), r.chance(1, 2));
         }
     }
+    // very many items: 100000 empty top-level boxes, 30000 animation frames - time must follow their number linearly
+    // (anything quadratic in the number of boxes or frames exceeds the time allowance here)
+    {
+        let mut r = rng.fork(8700);
+        let mut s = Sparse::new();
+        s.push(&bx(b"ftyp", &ftyp_payload(&mut r, true, 2, 0), Enc::S32));
+        let mut many = Vec::with_capacity(800_000);
+        for i in 0..100_000u32 {
+            many.extend_from_slice(&[0, 0, 0, 8]);
+            many.extend_from_slice(if i % 2 == 0 { b"free" } else { b"skip" });
+        }
+        s.push(&many);
+        s.push(&bx(b"mdat", &[1, 2, 3, 4], Enc::S32));
+        let t = rand_trak(&mut r, 2, false);
+        s.push(&bx(b"moov", &moov_payload(&mut r, &[t], false), Enc::S32));
+        c.mp4("many-boxes-100000", "many-items", &s, &Cfg::default());
+        let lossless: Vec<u8> = vec![0x2f, 0, 0, 0, 0, 0x88, 0x88, 0x08];
+        let mut chunks = vec![chunk(b"VP8X", &vp8x_payload(0x02, 1, 1)), chunk(b"ANIM", &[0; 6])];
+        for i in 0..30_000u32 {
+            let mut p = vec![0u8; 12];
+            p.extend_from_slice(&[1, 0, 0, 0]);
+            if i % 4 == 0 {
+                p.extend(chunk(b"VP8L", &lossless));
+            } else {
+                p.extend(chunk(b"VP8 ", VP8_DATA));
+            }
+            chunks.push(chunk(b"ANMF", &p));
+        }
+        c.webp("many-frames-30000", "many-items", &Sparse::from_bytes(&riff(&chunks)), false);
+    }
     // sub-images that cost no input per pixel, on the largest declarable dimensions (an animation frame of 2^24 x 2^24
     // with a lossless ALPH: the pixel count saturates at u32::MAX; a 16384 x 16384 VP8L): the validator must return
     // in bounded time - whichever of the five codes is the zero-bit one
